@@ -16,6 +16,7 @@ worker() {
   rsync -a --exclude target /verif/replay/ $w/replay/
   sed -i "s|path = \"/repo\"|path = \"$w/repo\"|" $w/replay/Cargo.toml
   [ -d /verif/out/replay-target ] && cp -r /verif/out/replay-target $w/out/replay-target
+  [ -d /verif/out/kani-target ] && cp -r /verif/out/kani-target $w/out/kani-target
   while true; do
     m=$( flock $base/lock -c "head -1 $base/todo; sed -i 1d $base/todo" )
     [ -z "$m" ] && break
